@@ -102,7 +102,8 @@ class Run(object):
 
     @property
     def thorough(self):
-        return self.tier == 'thorough'
+        # modules whose complete space costs only seconds set FULL_IN_QUICK: both tiers then explore the same space
+        return self.tier == 'thorough' or bool(getattr(self.mod, 'FULL_IN_QUICK', False))
 
     # ----- sharded execution --------------------------------------------------------------
     def order(self, shards):
